@@ -175,10 +175,7 @@ func vpParseSigned(s string, algs []jose.SignatureAlgorithm) (*jwt.JSONWebToken,
 	}
 	if vpIdpPerCall {
 		// history harness: a correctly signed, unexpired gateway cookie
-		vpPresentation = vpNowCalls
-		if vpPresentation > 1 {
-			vpPresentation = 1
-		}
+		// (vpPresentation is set by the harness before each presentation)
 		vpTokAlgs = []string{"HS256"}
 		vpTokKind, vpTokSignedBy = 1, vpKeyPAASign
 		if !vpTokClaimsMade {
